@@ -470,6 +470,108 @@ def find_path_cp(graph, start, goals, cut_edge=None, cut_node=None,
     return None
 
 
+def _establishes(nzl, expr, polarity, pred):
+    """Does `expr evaluating to polarity` establish a fact accepted by pred?
+    Compound conditions are taken apart: a conjunction that holds gives
+    every operand, one that fails gives only what each operand's failure
+    would give; dually for disjunctions."""
+    if isinstance(expr, ast.UnaryOp) and isinstance(expr.op, ast.Not):
+        return _establishes(nzl, expr.operand, not polarity, pred)
+    if isinstance(expr, ast.BoolOp):
+        parts = [_establishes(nzl, v, polarity, pred) for v in expr.values]
+        conj = isinstance(expr.op, ast.And)
+        return any(parts) if conj == polarity else all(parts)
+    try:
+        atom = nzl.atom(expr)
+        if not polarity:
+            atom = N.negate(atom)
+    except Exception:             # pylint: disable=broad-except
+        return False
+    return bool(pred(atom))
+
+
+def unestablished_path(graph, goals, preds, start=None):
+    """Path (list of edges) from the entry to a goal node along which one of
+    the wanted facts was NOT established, or None when every path
+    establishes all of them.  ``preds``: {name: fn(atom) -> bool}.
+    Path-sensitive for local booleans: a name bound to a constant prunes the
+    impossible outcome of a test on it; a name bound to a condition
+    (``deleted = stat is None`` ... ``if deleted:``) passes on, at the test,
+    what that condition establishes."""
+    goals = set(goals)
+    nzl = N.Normaliser()
+    names = sorted(preds)
+
+    def learn(have, expr, polarity):
+        new = set(have)
+        for name in names:
+            if name not in new and _establishes(nzl, expr, polarity,
+                                                preds[name]):
+                new.add(name)
+        return frozenset(new)
+
+    def step(edge, state):
+        if edge.kind == 'exc':
+            return []
+        have, envt = state
+        env = dict(envt)
+        node = edge.src
+        if node in goals:
+            return []
+        if node.kind == 'test' and edge.kind in ('true', 'false') and \
+                node.ast is not None:
+            polarity = edge.kind == 'true'
+            expr = node.ast
+            flip = False
+            while isinstance(expr, ast.UnaryOp) and isinstance(
+                    expr.op, ast.Not):
+                expr = expr.operand
+                flip = not flip
+            if isinstance(expr, ast.Name) and expr.id in env:
+                kind, val = env[expr.id]
+                want = polarity != flip
+                if kind == 'const':
+                    if bool(val) != want:
+                        return []
+                else:
+                    have = learn(have, val, want)
+            else:
+                have = learn(have, node.ast, polarity)
+        if node.kind == 'stmt' and isinstance(node.ast, ast.Assign) and \
+                len(node.ast.targets) == 1 and \
+                isinstance(node.ast.targets[0], ast.Name):
+            tgt = node.ast.targets[0].id
+            val = node.ast.value
+            for key in [k for k, (kind, v) in env.items()
+                        if kind == 'expr' and tgt in N.mentions(v)]:
+                env.pop(key)
+            if isinstance(val, ast.Constant) and (
+                    val.value is None or isinstance(val.value, bool)):
+                env[tgt] = ('const', val.value)
+            elif isinstance(val, (ast.Compare, ast.BoolOp)) or (
+                    isinstance(val, ast.UnaryOp) and
+                    isinstance(val.op, ast.Not)):
+                env[tgt] = ('expr', val)
+            elif isinstance(val, ast.Name) and val.id in env:
+                env[tgt] = env[val.id]
+            else:
+                env.pop(tgt, None)
+        elif node.kind in ('stmt', 'for', 'with_enter'):
+            for name in N.assigned_targets(node) | N.for_targets(node):
+                env.pop(name, None)
+                for key in [k for k, (kind, v) in env.items()
+                            if kind == 'expr' and name in N.mentions(v)]:
+                    env.pop(key)
+        return [(have, tuple(sorted(env.items(), key=lambda kv: kv[0])))]
+
+    reached = C.explore(graph, [(frozenset(), ())], step,
+                        start=start or graph.entry)
+    for (node, state) in reached:
+        if node in goals and len(state[0]) < len(names):
+            return C.witness(reached, (node, state))
+    return None
+
+
 _DOM_CACHE = {}
 
 
